@@ -254,6 +254,7 @@ type PairOpts struct {
 	Symlinks   bool
 	KindClash  bool // allow a path to change kind between old and new (file<->dir<->symlink)
 	SmallOnly  bool // keep every file below ~3 blocks (fast cases)
+	Triple     bool // force the relation "head + whole copy + tail of one old file" (adds a 3-block old file)
 }
 
 var sizeClasses = []int{0, 1, 2, 100, BS - 1, BS, BS + 1, 2*BS - 1, 2 * BS, 2*BS + 1, 3 * BS, 3*BS + 100, 5*BS + 7}
@@ -404,6 +405,9 @@ func GenPair(r *Rng, o PairOpts) (old, nw *Build, rel []string) {
 		}
 		old.Entries = append(old.Entries, BEntry{Path: genPath(r, usedOld, ".dat"), Kind: 'f', Data: data})
 	}
+	if o.Triple {
+		old.Entries = append([]BEntry{{Path: genPath(r, usedOld, ".dat"), Kind: 'f', Data: r.Bytes(3*BS + r.Pick(0, 1, 999))}}, old.Entries...)
+	}
 	if r.Intn(3) == 0 {
 		old.Entries = append(old.Entries, BEntry{Path: genPath(r, usedOld, ".d"), Kind: 'd'})
 	}
@@ -543,6 +547,31 @@ func GenPair(r *Rng, o PairOpts) (old, nw *Build, rel []string) {
 			if addNew(b.Path, a.Data) {
 				rel = append(rel, "copied-over-existing")
 			}
+		}
+	}
+	// one old file reused three times in a row: a file ending with its first k blocks, a whole copy of it, a file
+	// starting at its block k (consecutive readers of the same old file at touching offsets), brand-new files between
+	if o.Triple || r.Intn(3) == 0 {
+		for _, f := range oldFiles {
+			nb := len(f.Data) / BS
+			if nb < 2 {
+				continue
+			}
+			k := 1 + r.Intn(nb-1)
+			pre := genPath(r, usedOld, "")
+			ok := addNew(pre+"-1head.bin", append(mk(r.Pick(0, 10, BS)), f.Data[:k*BS]...))
+			if r.Bool() {
+				addNew(pre+"-2new.bin", mk(r.Pick(1, 100, BS+1)))
+			}
+			ok = addNew(pre+"-3copy.bin", f.Data) && ok
+			if r.Bool() {
+				addNew(pre+"-4new.bin", mk(r.Pick(1, 100)))
+			}
+			ok = addNew(pre+"-5tail.bin", append(append([]byte(nil), f.Data[k*BS:]...), mk(r.Pick(0, 7))...)) && ok
+			if ok {
+				rel = append(rel, "head+copy+tail-of-one-old-file")
+			}
+			break
 		}
 	}
 	// shared blocks: a new file built from blocks of several old files
